@@ -482,6 +482,7 @@ flops_t *trsv_ops;      /* flops distribution on n */
 #define SLUV_DFS_BEGIN      30   /* a=jcol b=w                     (yield) */
 #define SLUV_DFS_END        31   /* a=jcol b=w                     (yield) */
 #define SLUV_SNODE_BEGIN    32   /* a=jcol b=w */
+#define SLUV_SINGULAR       33   /* a=jcol b=nsupc c=nsupr ctx=Glu : zero pivot column (c==b: no candidate row) */
 extern void slu_mt_verif_event(int kind, long pnum, long a, long b, long c,
 			       const void *ctx);
 #define SLU_MT_VERIF_EVENT(k,p,a,b,c,x) \
